@@ -131,8 +131,8 @@ def handleGet1 (st : Store) (s f : String) (suppress : Bool) : Nat → List Stri
   | 0 => []
   | fuel + 1 =>
     if s == "SYS" && f == "INPNAME" then
-      ((subOf st "SYS").getD []).flatMap (fun e =>
-        if e.1.startsWith "INPNAME" && e.1 != "INPNAME" then (sendStored st s e.1 true).1 else [])
+      let keys := ((subOf st "SYS").getD []).filter (fun e => e.1.startsWith "INPNAME" && e.1 != "INPNAME")
+      if keys.isEmpty then [UNDEFINED] else keys.flatMap (fun e => (sendStored st s e.1 true).1)
     else if f == "SCENENAME" then
       let keys := ((subOf st s).getD []).filter (fun e => e.1.startsWith "SCENE" && e.1.endsWith "NAME" && e.1 != "SCENENAME")
       if keys.isEmpty then [UNDEFINED] else keys.flatMap (fun e => (sendStored st s e.1 true).1)
